@@ -2,6 +2,7 @@ package mon
 
 import (
 	"fmt"
+	"sync/atomic"
 	"math/rand"
 	"net/url"
 	"sort"
@@ -121,7 +122,7 @@ func c07World(k c07cfg, ov *fosite.ClientLifespanConfig) *world.World {
 func bearerAssertion(sub string, exp time.Time, mut func(map[string]interface{})) string {
 	keys := world.GetKeys()
 	now := time.Now()
-	cl := map[string]interface{}{"iss": "issuer-1", "sub": sub, "aud": []string{world.TokenURL}, "exp": exp.Unix(), "iat": now.Unix(), "jti": fmt.Sprintf("jti-%d-%d", now.UnixNano(), rand.Int63())}
+	cl := map[string]interface{}{"iss": "issuer-1", "sub": sub, "aud": []string{world.TokenURL}, "exp": exp.Unix(), "iat": now.Unix(), "jti": fmt.Sprintf("jti-%d-%d", now.UnixNano(), atomic.AddInt64(&jtiCounter, 1))}
 	if mut != nil {
 		mut(cl)
 	}
@@ -130,7 +131,7 @@ func bearerAssertion(sub string, exp time.Time, mut func(map[string]interface{})
 
 func clientAssertion(client string, exp time.Time, mut func(map[string]interface{})) string {
 	keys := world.GetKeys()
-	cl := map[string]interface{}{"iss": client, "sub": client, "aud": world.TokenURL, "exp": exp.Unix(), "iat": time.Now().Unix(), "jti": fmt.Sprintf("cjti-%d-%d", time.Now().UnixNano(), rand.Int63())}
+	cl := map[string]interface{}{"iss": client, "sub": client, "aud": world.TokenURL, "exp": exp.Unix(), "iat": time.Now().Unix(), "jti": fmt.Sprintf("cjti-%d-%d", time.Now().UnixNano(), atomic.AddInt64(&jtiCounter, 1))}
 	if mut != nil {
 		mut(cl)
 	}
